@@ -920,17 +920,26 @@ class reactive_ops:
         # it is redundant (and hidden from consumers of the expression) only
         # if all of those are dependencies of the expression anyway
         trigger = Trigger(parameters=xrefs + yrefs)
+        def selects(branch):
+            # A condition that currently fails to evaluate must not abort
+            # the update of the input being propagated (and with it the
+            # invalidation of everything else depending on that input):
+            # relay the change, consumers see the error when they evaluate.
+            try:
+                return bool(self.value) is branch
+            except Exception:
+                return True
+
         if xrefs:
             def trigger_x(*args):
-                if self.value:
+                if selects(True):
                     trigger.param.trigger('value')
             bind(trigger_x, *xrefs, watch=True)
         if yrefs:
             def trigger_y(*args):
-                if not self.value:
+                if selects(False):
                     trigger.param.trigger('value')
             bind(trigger_y, *yrefs, watch=True)
-
         def ternary(condition, _):
             return resolve_value(x) if condition else resolve_value(y)
         return bind(ternary, self._reactive, trigger.param.value)
